@@ -228,8 +228,17 @@ func (ev *enumEval) eval(fr *frame, v ssa.Value) (any, bool) {
 					ev.undecided("non-integer rune")
 					return nil, false
 				}
-				if rv < 0 || rv > 127 {
-					if rv < 0 {
+				if rv < 0 {
+					return false, true
+				}
+				if rv > 127 {
+					// Unicode White_Space beyond ASCII (documented in package unicode); letters and
+					// digits beyond ASCII are not modelled
+					if name == "unicode.IsSpace" {
+						switch {
+						case rv == 0x85, rv == 0xA0, rv == 0x1680, rv >= 0x2000 && rv <= 0x200a, rv == 0x2028, rv == 0x2029, rv == 0x202f, rv == 0x205f, rv == 0x3000:
+							return true, true
+						}
 						return false, true
 					}
 					ev.undecided("unicode class of non-ASCII rune %d not modelled", rv)
